@@ -197,6 +197,7 @@ m = g(r.sub, p.sub) && r.obj == p.obj && r.act == p.act
 	safe := []string{"alice", "bob", "data1", "data2", "read", "a b", "x-y_z", "ü", "1", "-"}
 	// blanks at the END of a field survive the round trip in every column but the last (the
 	// adapters trim the whole line; leading blanks and blanks ending the line are F15 territory)
+	safe = append(safe, "#general", "#42", "a#b") // '#' starts a comment only at the beginning of a line
 	inner := append(append([]string(nil), safe...), "alice ", "x  ", "a b ", "")
 	safe = append(safe, "") // an empty field is a value like any other, in every column
 	n := 300
